@@ -31,7 +31,12 @@ def gen_cases(ctx, n):
              "subsample_frequency": r.choice([1.0, 1.0, 0.5, 0.0, 0.26]), "dynamic_step_size": r.random() < 0.7,
              "seed": r.randint(1, 10 ** 6), "prec": [r.choice([0.5, 1.0, 2.0]) for _ in range(dim)],
              "switch_fraction": r.choice([0.3, 0.5, 0.0, 1.0])}
-        if r.random() < 0.6:
+        if r.random() < 0.25:
+            # without the retry a fault at the first evaluations of a draw is a divergence before
+            # any step was taken
+            c["dynamic_step_size"] = False
+            c["faults"] = [[i, "rec"] for i in range(r.randint(4, 12), 60, r.choice([1, 2, 3]))]
+        elif r.random() < 0.6:
             k = sorted(set(r.randint(2, 40) for _ in range(r.choice([1, 1, 2, 3, 12]))))
             c["faults"] = [[i, r.choice(["rec", "nan_logp", "inf_logp"])] for i in k]
         cases.append(c)
@@ -128,6 +133,15 @@ def run(ctx):
                 stats["divergent_draws"] += 1
                 if d["pos"] != d["prev_pos"]:
                     bad(c, "divergent draw %d moved the position" % k)
+                # ... and refreshes the momentum: every coordinate is drawn anew, wherever in the
+                # draw the divergence happened (also at its very first step)
+                if d.get("mom") is not None and d.get("prev_mom") is not None:
+                    stats["divergent_first_step"] = stats.get("divergent_first_step", 0) + int(d["num_steps"] == 0)
+                    if any(a == b_ for a, b_ in zip(d["mom"], d["prev_mom"])):
+                        bad(c, "divergent draw %d (%d steps taken) did not refresh the momentum: %s before, %s after" % (
+                            k, d["num_steps"], [b2f(x) for x in d["prev_mom"]][:3], [b2f(x) for x in d["mom"]][:3]))
+                    elif is_micro and abs(math.sqrt(sum(b2f(x) ** 2 for x in d["mom"])) - 1.0) > 1e-12:
+                        bad(c, "momentum after the divergent draw %d has norm %r" % (k, math.sqrt(sum(b2f(x) ** 2 for x in d["mom"]))))
             if (quick and len(eexprs) < 160) or (not quick and len(eexprs) < 4000):
                 for call in d["esh"][:2]:
                     e, meta = esh_check(c, call)
